@@ -1,7 +1,204 @@
 /-
-Helper lemmas for Props/C12B.lean (VcfCodec).
+Helper lemmas for Props/C12B.lean (VcfCodec): the VCF text written by `vcfEncode` is a list of `\n`-terminated lines
+(the header lines of Lemmas/VcfHeader.lean, then one line per record); positions round-trip through decimal digits,
+the six GT spellings of `renderGt` parse back to their classification, a record line splits at TAB into its fields.
 -/
-import SfsModel.Model.Container
+import SfsModel.Lemmas.VcfHeader
 namespace Sfs
+
+/-! ## decimal positions -/
+
+theorem natBytes_range (n : Nat) : ∀ b ∈ natBytes n, 48 ≤ b ∧ b ≤ 57 := by
+  intro b hb
+  simp only [natBytes, List.mem_map] at hb
+  obtain ⟨c, hc, rfl⟩ := hb
+  have h : c.isDigit = true := Nat.isDigit_of_mem_toDigits (by decide) (by decide) hc
+  simp only [Char.isDigit, Bool.and_eq_true, decide_eq_true_eq] at h
+  have h1 : '0'.val ≤ c.val := h.1
+  have h2 : c.val ≤ '9'.val := h.2
+  rw [UInt32.le_iff_toNat_le] at h1 h2
+  exact ⟨h1, h2⟩
+
+theorem natBytes_ne_nil (n : Nat) : natBytes n ≠ [] := by
+  simp [natBytes, Nat.toDigits_ne_nil]
+
+theorem bytesNat_natBytes (n : Nat) : bytesNat (natBytes n) = some n := by
+  have hv : (Nat.toDigits 10 n).foldl (fun acc c => 10 * acc + (c.toNat - 48)) 0 = n :=
+    Nat.ofDigitChars_toDigits (b := 10) (by decide) (by decide)
+  have hne : (natBytes n).isEmpty = false := by
+    cases h : natBytes n with
+    | nil => exact absurd h (natBytes_ne_nil n)
+    | cons _ _ => rfl
+  have hall : (natBytes n).all (fun b => decide (48 ≤ b ∧ b ≤ 57)) = true := by
+    simp only [List.all_eq_true, decide_eq_true_eq]
+    exact natBytes_range n
+  have hf : (natBytes n).foldl (fun acc b => 10 * acc + (b - 48)) 0 = n := by
+    rw [natBytes, List.foldl_map]; exact hv
+  unfold bytesNat
+  simp only [hne, hall, hf]
+  simp
+
+/-! ## genotype spellings -/
+
+theorem renderGt_cases (g : GtRes) (h : WfGt g) :
+    (g = .genotype 0 ∧ renderGt g = [48, 47, 48]) ∨ (g = .genotype 1 ∧ renderGt g = [48, 47, 49]) ∨
+    (g = .genotype 2 ∧ renderGt g = [49, 47, 49]) ∨ (g = .skipped .missing ∧ renderGt g = [46, 47, 46]) ∨
+    (g = .skipped .multiallelic ∧ renderGt g = [48, 47, 50]) ∨ (g = .ploidyError ∧ renderGt g = [48]) := by
+  cases g with
+  | genotype k =>
+    have hk : k ≤ 2 := h
+    match k, hk with
+    | 0, _ => exact .inl ⟨rfl, by decide⟩
+    | 1, _ => exact .inr (.inl ⟨rfl, by decide⟩)
+    | 2, _ => exact .inr (.inr (.inl ⟨rfl, by decide⟩))
+  | skipped s =>
+    cases s with
+    | missing => exact .inr (.inr (.inr (.inl ⟨rfl, by decide⟩)))
+    | multiallelic => exact .inr (.inr (.inr (.inr (.inl ⟨rfl, by decide⟩))))
+  | ploidyError => exact .inr (.inr (.inr (.inr (.inr ⟨rfl, by decide⟩))))
+
+theorem sampleGt_renderGt (g : GtRes) (h : WfGt g) : sampleGt (some 0) (renderGt g) = some g := by
+  rcases renderGt_cases g h with ⟨rfl, e⟩ | ⟨rfl, e⟩ | ⟨rfl, e⟩ | ⟨rfl, e⟩ | ⟨rfl, e⟩ | ⟨rfl, e⟩ <;> rw [e] <;> decide
+
+theorem renderGt_bytes (g : GtRes) (h : WfGt g) : ∀ b ∈ renderGt g, b ≠ 9 ∧ b ≠ 10 ∧ b ≠ 13 := by
+  rcases renderGt_cases g h with ⟨_, e⟩ | ⟨_, e⟩ | ⟨_, e⟩ | ⟨_, e⟩ | ⟨_, e⟩ | ⟨_, e⟩ <;> rw [e] <;> decide
+
+/-! ## one record line -/
+
+/-- the record line without its newline -/
+def recLine (contig : String) (pos : Nat) (gts : List GtRes) : List Nat :=
+  strBytes contig ++ [9] ++ natBytes pos ++ strBytes "\t.\tA\tC\t.\t.\t.\tGT" ++ gts.flatMap (fun g => 9 :: renderGt g)
+
+theorem vcfEncodeRec_eq (contig : String) (pos : Nat) (gts : List GtRes) :
+    vcfEncodeRec contig pos gts = recLine contig pos gts ++ [10] := rfl
+
+theorem splitBytes_fields (x : List Nat) (hx : 9 ∉ x) (gts : List GtRes) (hg : ∀ g ∈ gts, WfGt g) :
+    splitBytes 9 (x ++ gts.flatMap (fun g => 9 :: renderGt g)) = x :: gts.map renderGt := by
+  induction gts generalizing x with
+  | nil => simpa using splitBytes_single 9 x hx
+  | cons g gs ih =>
+    have h9 : 9 ∉ renderGt g := fun h => (renderGt_bytes g (hg g (by simp)) 9 h).1 rfl
+    have e : x ++ (g :: gs).flatMap (fun g => 9 :: renderGt g) =
+        x ++ 9 :: (renderGt g ++ gs.flatMap (fun g => 9 :: renderGt g)) := by
+      simp [List.flatMap_cons]
+    rw [e, splitBytes_append_sep 9 x _ hx, ih _ h9 (fun g' hg' => hg g' (by simp [hg']))]
+    simp
+
+theorem splitBytes_recLine (c : String) (hc : WfContig c) (p : Nat) (gts : List GtRes) (hg : ∀ g ∈ gts, WfGt g) :
+    splitBytes 9 (recLine c p gts) =
+      strBytes c :: natBytes p :: [46] :: [65] :: [67] :: [46] :: [46] :: [46] :: [71, 84] :: gts.map renderGt := by
+  have e0 : strBytes "\t.\tA\tC\t.\t.\t.\tGT" = [9, 46, 9, 65, 9, 67, 9, 46, 9, 46, 9, 46, 9, 71, 84] := by decide
+  have hc9 : 9 ∉ strBytes c := fun h => by have := wfContig_bytes hc h; omega
+  have hp9 : 9 ∉ natBytes p := fun h => by have := natBytes_range p 9 h; omega
+  have e : recLine c p gts = strBytes c ++ 9 :: (natBytes p ++ 9 :: ([46] ++ 9 :: ([65] ++ 9 :: ([67] ++ 9 :: ([46] ++ 9 ::
+      ([46] ++ 9 :: ([46] ++ 9 :: ([71, 84] ++ gts.flatMap (fun g => 9 :: renderGt g))))))))) := by
+    simp [recLine, e0]
+  rw [e, splitBytes_append_sep 9 _ _ hc9, splitBytes_append_sep 9 _ _ hp9,
+    splitBytes_append_sep 9 [46] _ (by decide), splitBytes_append_sep 9 [65] _ (by decide),
+    splitBytes_append_sep 9 [67] _ (by decide), splitBytes_append_sep 9 [46] _ (by decide),
+    splitBytes_append_sep 9 [46] _ (by decide), splitBytes_append_sep 9 [46] _ (by decide),
+    splitBytes_fields [71, 84] (by decide) gts hg]
+
+theorem mapM_sampleGt (gts : List GtRes) (hg : ∀ g ∈ gts, WfGt g) :
+    (gts.map renderGt).mapM (sampleGt (some 0)) = some gts := by
+  induction gts with
+  | nil => rfl
+  | cons g gs ih =>
+    simp [List.mapM_cons, sampleGt_renderGt g (hg g (by simp)), ih (fun g' hg' => hg g' (by simp [hg']))]
+
+theorem parseVcfRecord_recLine (c : String) (hc : WfContig c) (p : Nat) (hp : 1 ≤ p) (gts : List GtRes)
+    (hne : gts ≠ []) (hg : ∀ g ∈ gts, WfGt g) :
+    parseVcfRecord (recLine c p gts) = some (.gts c p gts) := by
+  have hs : (gts.map renderGt).isEmpty = false := by
+    cases gts with
+    | nil => exact absurd rfl hne
+    | cons _ _ => rfl
+  have hcne : (c == "") = false := by
+    simp only [beq_eq_false_iff_ne, ne_eq]; exact hc.1
+  have hb1 : isBases [65] = true := by decide
+  have hb2 : splitBytes 44 [67] = [[67]] := by decide
+  have hb3 : isBases [67] = true := by decide
+  have hkeys : (splitBytes 58 [71, 84]).idxOf? (strBytes "GT") = some 0 := by decide
+  unfold parseVcfRecord
+  rw [splitBytes_recLine c hc p gts hg]
+  simp only [wfContig_ascii hc, hcne, bytesNat_natBytes, hs, hkeys, mapM_sampleGt gts hg]
+  simp [hp, hb1, hb2, hb3]
+
+
+theorem recLine_bytes (c : String) (hc : WfContig c) (p : Nat) (gts : List GtRes) (hg : ∀ g ∈ gts, WfGt g) :
+    ∀ b ∈ recLine c p gts, b ≠ 10 ∧ b ≠ 13 := by
+  intro b hb
+  simp only [recLine, List.mem_append, List.mem_flatMap, List.mem_cons, List.not_mem_nil, or_false] at hb
+  rcases hb with (((hb | hb) | hb) | hb) | ⟨g, hgm, hb | hb⟩
+  · have := wfContig_bytes hc hb; omega
+  · omega
+  · have := natBytes_range p b hb; omega
+  · revert b; decide
+  · omega
+  · have := renderGt_bytes g (hg g hgm) b hb; exact ⟨this.2.1, this.2.2⟩
+
+theorem recLine_isEmpty (c : String) (hc : WfContig c) (p : Nat) (gts : List GtRes) :
+    (recLine c p gts).isEmpty = false := by
+  have := strBytes_ne_nil hc.1
+  cases h : strBytes c with
+  | nil => exact absurd h this
+  | cons a t => simp [recLine, h]
+
+/-- the record lines of a call set -/
+def recLines (recs : List (String × Nat × List GtRes)) : List (List Nat) := recs.map (fun r => recLine r.1 r.2.1 r.2.2)
+
+theorem parseVcfRecords_recLines (recs : List (String × Nat × List GtRes))
+    (hr : ∀ r ∈ recs, WfContig r.1 ∧ 1 ≤ r.2.1 ∧ r.2.2 ≠ [] ∧ ∀ g ∈ r.2.2, WfGt g) :
+    parseVcfRecords (recLines recs) = some (toRecs recs) := by
+  induction recs with
+  | nil => rfl
+  | cons r rs ih =>
+    obtain ⟨h1, h2, h3, h4⟩ := hr r (by simp)
+    have ih' := ih (fun r' hr' => hr r' (by simp [hr']))
+    simp only [recLines, List.map_cons] at ih' ⊢
+    unfold parseVcfRecords
+    simp only [recLine_isEmpty r.1 h1, parseVcfRecord_recLine r.1 h1 r.2.1 h2 r.2.2 h3 h4, ih']
+    simp [toRecs]
+
+theorem vcfEncode_eq_lines (cols contigs : List String) (recs : List (String × Nat × List GtRes)) :
+    vcfEncode cols contigs recs = (headerLines cols contigs ++ recLines recs).flatMap (fun l => l ++ [10]) := by
+  unfold vcfEncode
+  rw [headerText_eq_lines, List.flatMap_append]
+  congr 1
+  simp [recLines, List.flatMap_map, vcfEncodeRec_eq]
+
+/-! ## the whole text -/
+
+theorem vcfDecode_vcfEncode (cols contigs : List String) (recs : List (String × Nat × List GtRes))
+    (h : WfCallSet cols contigs recs) :
+    vcfDecode (vcfEncode cols contigs recs) = some (cols, toRecs recs) := by
+  have hcw : ∀ c ∈ contigs, WfContig c := h.contigs_wf
+  have hr : ∀ r ∈ recs, WfContig r.1 ∧ 1 ≤ r.2.1 ∧ r.2.2 ≠ [] ∧ ∀ g ∈ r.2.2, WfGt g := by
+    intro r hrm
+    obtain ⟨h1, h2, h3, h4⟩ := h.recs_wf r hrm
+    refine ⟨hcw _ h1, h2, ?_, h4⟩
+    intro e
+    rw [e] at h3
+    exact h.cols_ne (List.eq_nil_of_length_eq_zero h3.symm)
+  have hlines : ∀ l ∈ headerLines cols contigs ++ recLines recs, 10 ∉ l ∧ 13 ∉ l := by
+    intro l hl
+    rcases List.mem_append.1 hl with hl | hl
+    · exact headerLines_bytes cols contigs h.cols_wf hcw l hl
+    · obtain ⟨r, hrm, rfl⟩ := List.mem_map.1 hl
+      have := recLine_bytes r.1 (hr r hrm).1 r.2.1 r.2.2 (hr r hrm).2.2.2
+      exact ⟨fun hb => (this _ hb).1 rfl, fun hb => (this _ hb).2 rfl⟩
+  have h13 : (vcfEncode cols contigs recs).contains 13 = false := by
+    rw [vcfEncode_eq_lines]
+    simp only [List.contains_eq_mem, decide_eq_false_iff_not, List.mem_flatMap, List.mem_append, List.mem_singleton]
+    rintro ⟨l, hl, hb | hb⟩
+    · exact (hlines l (List.mem_append.2 hl)).2 hb
+    · omega
+  have hsplit : splitLines (vcfEncode cols contigs recs) = headerLines cols contigs ++ recLines recs := by
+    have := splitLines_flatMap _ (fun l hl => (hlines l hl).1) []
+    rw [List.append_nil, splitLines_nil, List.append_nil] at this
+    rw [vcfEncode_eq_lines, this]
+  unfold vcfDecode
+  rw [h13, hsplit, parseVcfHeaderLines_headerLines cols contigs h.cols_ne h.cols_wf hcw]
+  simp [parseVcfRecords_recLines recs hr]
 
 end Sfs
